@@ -1,4 +1,5 @@
 import Upd.Basic
+import Px.Split
 /-! scratch pilot: manifest, tag and referrers handlers (manifest.go, tag.go, referrer.go) on the memory store -/
 namespace Upd
 
@@ -286,17 +287,9 @@ def tags (s : State) (r : String) (n : String) (last : String) : State × Resp :
 
 def fmtRef (d : Desc) : String := s!"{d.dig}/{d.mt}/{d.size}/{d.atype}/{d.rann}"
 
-/-- `referrerSplit`: pages of a descriptor list that each stay within the limit; an entry too big on its own is dropped -/
-def splitLoop (limit : Nat) : List Desc → List Desc → Option (List Desc) → List (List Desc) → List (List Desc)
-  | [], _, last, res => match last with | some l => res ++ [l] | none => res
-  | d :: ds, cur, last, res =>
-    if respSize (cur ++ [d]) > limit then
-      let res1 := match last with | some l => res ++ [l] | none => res
-      if respSize [d] > limit then splitLoop limit ds [] none res1
-      else splitLoop limit ds [d] (some [d]) res1
-    else splitLoop limit ds (cur ++ [d]) (some (cur ++ [d])) res
-
-def referrerSplit (limit : Nat) (ds : List Desc) : List (List Desc) := splitLoop limit ds [] none []
+/-- `referrerSplit`: pages of a descriptor list that each stay within the limit; an entry too big on its own is
+    dropped.  The loop is `PxS.split` (the transcription of referrer.go:217-268) at the JSON size function. -/
+def referrerSplit (limit : Nat) (ds : List Desc) : List (List Desc) := PxS.split respSize limit ds
 
 def pageOf (pageStr : String) : Nat := match atoi? pageStr with | some i => if i < 0 then 0 else i.toNat | none => 0
 def refsBody (ds : List Desc) : String := "[" ++ ",".intercalate (ds.map fmtRef) ++ "]"
@@ -304,33 +297,30 @@ def emptyRefs : Resp := { status := 200, ct := "ocii", body := "[]" }
 def refsLink (page total : Nat) (cacheDig : String) : String :=
   if page + 1 < total then s!"next(cache={cacheDig},page={page + 1})" else ""
 
-/-- referrers GET: `filter` = artifactType parameter, `cacheTok`/`pageStr` = the cache and page parameters -/
-def refs (s : State) (r : String) (arg : String) (filter : String) (cacheTok : String := "") (pageStr : String := "") : State × Resp :=
-  let s := s.setRepo (s.repo r)
-  let page := pageOf pageStr
-  let filt := if filter ≠ "" then "artifactType" else ""
-  let fromCache (pages : List (List Desc)) (pg : Nat) (cacheDig : String) : Resp :=
-    { status := 200, ct := "ocii", filt := filt, body := refsBody (pages.getD pg []), link := refsLink pg pages.length cacheDig }
-  -- a paged request that names a cached response
-  let paged : Option Resp :=
-    if cacheTok ≠ "" ∧ page ≠ 0 then
-      match DigArg.parse cacheTok with
-      | .bad => some { status := 400, code := "UNSUPPORTED" }
-      | .ok cd =>
-        match s.rcache.find? (·.1 = (r, arg, cd.str, filter)) with
-        | some (_, pages) => if page < pages.length then some (fromCache pages page cd.str) else none
-        | none => none
-    else none
-  match paged with
-  | some resp => (s, resp)
-  | none =>
+def filtHdr (filter : String) : String := if filter ≠ "" then "artifactType" else ""
+
+/-- an answer from the page cache -/
+def fromCache (filter : String) (pages : List (List Desc)) (pg : Nat) (cacheDig : String) : Resp :=
+  { status := 200, ct := "ocii", filt := filtHdr filter, body := refsBody (pages.getD pg []), link := refsLink pg pages.length cacheDig }
+
+/-- a paged request that names a cached response (`cache=<digest>&page=<n>`, n ≠ 0) -/
+def refsPaged (s : State) (r arg filter cacheTok : String) (page : Nat) : Option Resp :=
+  if cacheTok ≠ "" ∧ page ≠ 0 then
+    match DigArg.parse cacheTok with
+    | .bad => some { status := 400, code := "UNSUPPORTED" }
+    | .ok cd =>
+      match s.rcache.find? (·.1 = (r, arg, cd.str, filter)) with
+      | some (_, pages) => if page < pages.length then some (fromCache filter pages page cd.str) else none
+      | none => none
+  else none
+
+/-- the answer generated from the current state -/
+def refsMain (s : State) (r arg filter cacheTok : String) (page : Nat) : State × Resp :=
   match getBySubj (s.repo r).index arg with
   | none => (s, emptyRefs)
   | some d =>
     match s.rcache.find? (·.1 = (r, arg, d.dig, filter)) with
-    | some (_, pages) =>
-      let pg := if page ≥ pages.length then 0 else page
-      (s, fromCache pages pg d.dig)
+    | some (_, pages) => (s, fromCache filter pages (if page ≥ pages.length then 0 else page) d.dig)
     | none =>
       match DigArg.parse d.dig with
       | .bad => (s, emptyRefs)
@@ -347,9 +337,16 @@ def refs (s : State) (r : String) (arg : String) (filter : String) (cacheTok : S
               let cacheSame := match DigArg.parse cacheTok with | .ok cd => cd.str = d.dig | .bad => false
               let pg := if page > 0 ∧ (!cacheSame ∨ page ≥ pages.length) then 0 else page
               ({ s with rcache := s.rcache ++ [((r, arg, d.dig, filter), pages)] },
-               { status := 200, ct := "ocii", filt := filt, body := refsBody (pages.getD pg []), link := refsLink pg pages.length d.dig,
+               { status := 200, ct := "ocii", filt := filtHdr filter, body := refsBody (pages.getD pg []), link := refsLink pg pages.length d.dig,
                  cl := toString (respSize (pages.getD pg [])) })
           else
             ({ s with rcache := s.rcache ++ [((r, arg, d.dig, filter), [out])] },
-             { status := 200, ct := "ocii", filt := filt, body := refsBody out, cl := toString outSize })
+             { status := 200, ct := "ocii", filt := filtHdr filter, body := refsBody out, cl := toString outSize })
+
+/-- referrers GET: `filter` = artifactType parameter, `cacheTok`/`pageStr` = the cache and page parameters -/
+def refs (s : State) (r : String) (arg : String) (filter : String) (cacheTok : String := "") (pageStr : String := "") : State × Resp :=
+  let s := s.setRepo (s.repo r)
+  match refsPaged s r arg filter cacheTok (pageOf pageStr) with
+  | some resp => (s, resp)
+  | none => refsMain s r arg filter cacheTok (pageOf pageStr)
 end Upd
